@@ -198,8 +198,9 @@ def is_chunk(t, c):
 for _k in (0, 1, 2, 3):
     _chunks = [f"c{i}" for i in range(_k)]
     contract(f"{TT}::TokenTree.unserialize_public", f"unserialize_public.offers-every-token[{_k}]",
-             vars={"PKB": BYTES, **{c: BYTES_N(128) for c in _chunks},
-                   "tree": OBJ(f"{TT}::TokenTree", public_key=PK, genesis_hash=BYTES_N(32), _logger=LOGGER())},
+             vars={"PKB": BYTES, **{c: BYTES_N(128) for c in _chunks}, "w1": TOKEN(),
+                   "tree": OBJ(f"{TT}::TokenTree", public_key=PK, genesis_hash=BYTES_N(32), _logger=LOGGER(),
+                               unchained=EXPR("mk_unchained([w1])"), unchained_max_size=EXPR("100"))},
              requires=["tree.public_key.ec.bin == PKB"],
              call="tree.unserialize_public(" + (" + ".join(_chunks) if _chunks else "b''") + ")", raises=[],
              stubs={"ipv8/keyvault/public/openssl.py::OpenSSLPK.get_signature_length": {"returns": "64", "note": "curve25519 signatures (A3)"},
@@ -207,7 +208,9 @@ for _k in (0, 1, 2, 3):
                                                      "note": "own contracts above; accepts or parks/rejects"}},
              ensures=[f"len(calls('gather')) == {_k}",
                       "all(is_chunk(calls('gather')[i].args[1], [" + ", ".join(_chunks) + "][i]) for i in range(len(calls('gather'))))",
-                      "result == all(acc_chunk(c) for c in [" + ", ".join(_chunks) + "])"],
+                      "result == all(acc_chunk(c) for c in [" + ", ".join(_chunks) + "])",
+                      # what is waiting for its parent (from this or an earlier batch) keeps waiting: only gather_token manages that area
+                      "len(tree.unchained) == 1 and all(w is w1 for w in tree.unchained)"],
              bounded=f"blob of {_k} tokens (64-byte signatures)",
              note="each 128-byte chunk becomes one offered token (previous hash, content hash, signature), in order; the result says "
                   "whether all of them were accepted")
@@ -242,3 +245,17 @@ contract(f"{TT}::TokenTree.serialize_public", "serialize_public.full-dump-in-ins
          ensures=["result == b''.join([x.get_plaintext_signed() for x in [a, b, c][:n_el]])"],
          bounded="trees of 0..3 tokens",
          note="chunk k of the dump is the k-th token that entered the tree")
+
+# partial dump: from the given token back towards the root over whatever part of the path is in the tree (also when the path is
+# dangling or the token itself is not in the tree) - no depth limit, no signature check: it is the RECEIVER that verifies
+contract(f"{TT}::TokenTree.serialize_public", "serialize_public(up_to).walks-back-over-what-is-there",
+         vars={"a": TOKEN(), "b": TOKEN(), "c": TOKEN(),
+               "tree": OBJ(f"{TT}::TokenTree", public_key=PK, private_key=EXPR("None"), genesis_hash=BYTES_N(32), _logger=LOGGER(),
+                           elements=EXPR("mk_elements([a, b][:n_el])"), unchained=EXPR("OrderedDict()"), unchained_max_size=EXPR("100"))},
+         instances=[{"n_el": 0}],    # (longer paths: the branch-feasibility abstraction does not see byte-string disequalities and unrolls for ever)
+         requires=["a._hash != b._hash", "b.previous_token_hash == a._hash", "a.previous_token_hash != a._hash",
+                   "c.previous_token_hash == (b._hash if n_el == 2 else a._hash)"],
+         call="tree.serialize_public(c)", raises=[],
+         ensures=["result == b''.join([x.get_plaintext_signed() for x in [c, b, a] if x is c or (x is b and n_el == 2) or (x is a and n_el >= 1)])"],
+         bounded="a token whose parent is not in the tree",
+         note="the dump starts with the given token and continues with each ancestor that is an element, in that order")
